@@ -11,6 +11,7 @@ import Kskm.Config
 import Kskm.Chain
 import KskmGen.Tables
 import KskmProofs.C05
+import KskmProofs.C06
 import KskmProofs.Lemmas.C16Validate
 import KskmProofs.Lemmas.C16Conforms
 import KskmProofs.Lemmas.C16Table
@@ -649,6 +650,90 @@ example : checkZskPolicyAlgorithm
       zskPolicy := { algorithms := [{ kind := .rsa, bits := 2048, algorithm := 1, exponent := some 65537 }] } }
     (Flag.setOff documentedRequestPolicy .signatureAlgorithmsMatchZskPolicy) = violation .policyAlg := by
   decide +kernel
+
+/-! ### the one switch that is not a whole check: `rsa_exponent_match_zsk_policy`
+
+`flag_independence` / `flag_off_validateRequest` above speak about the fourteen flags that switch a
+whole check, for EVERY request (in particular requests violating several rules at once).  The
+fifteenth option, `rsa_exponent_match_zsk_policy`, lives INSIDE KSR-BUNDLE-KEYS: it waives one
+comparison of the per-key test.  The statements below say that it waives that comparison and
+nothing else — no other check reads it, and within KSR-BUNDLE-KEYS the flags / key-tag clause
+(`C06.FlagsTagClause`, which does not mention the policy), the algorithm and the size comparison
+and the identifier-consistency clause stay in force — again for every request, so also for a key
+that has the wrong exponent AND a wrong key tag. -/
+
+/-- the policy with exactly `rsa_exponent_match_zsk_policy` set to `false` -/
+def expOff (pol : RequestPolicy) : RequestPolicy := { pol with rsaExponentMatchZskPolicy := false }
+
+/-- no check other than KSR-BUNDLE-KEYS changes its result (not even the error it reports) -/
+theorem exponent_flag_other_checks (ctx : Ctx) (pol : RequestPolicy) (k : Check) (hk : k ≠ .keysMatchZsk) :
+    runCheck ctx (expOff pol) k = runCheck ctx pol k := by
+  cases k <;> first | rfl | exact absurd rfl hk
+
+/-- keys of the other families are judged exactly as before -/
+theorem exponent_flag_other_families (req : Request) (pol : RequestPolicy) (k : Key)
+    (hal : isAlgorithmRsa k.algorithm = false) :
+    checkNewKey req (expOff pol) k = checkNewKey req pol k := by
+  simp [checkNewKey, hal]
+
+/-- **with the exponent switch off an RSA key passes exactly when its flags are 256, its stated key
+    tag is the computed one, and its algorithm and modulus size are those of a declared RSA
+    algorithm** — the exponent comparison is the only clause dropped (compare
+    `C06.checkNewKey_rsa_iff`, where the clause reads `a.exponent = some pub.exponent ∨ switch off`) -/
+theorem exponent_flag_waives_exponent_only (req : Request) (pol : RequestPolicy) (k : Key)
+    (hal : k.algorithm ∈ KskmGen.rsaAlgorithms) :
+    checkNewKey req (expOff pol) k = .ok () ↔
+      C06.FlagsTagClause k ∧
+      ∃ pk pub, Base64.decode k.publicKey = some pk ∧ rsaDecodeBytes pk = .ok pub ∧
+        ∃ a ∈ req.zskPolicy.algorithms, a.kind = .rsa ∧ a.algorithm = k.algorithm ∧
+          a.bits = (pub.bits : Int) := by
+  rw [C06.checkNewKey_rsa_iff req (expOff pol) k hal]
+  simp [C06.RsaParamsClause, expOff]
+
+/-- for the whole request (any key family, any number of violated rules): KSR-BUNDLE-KEYS with the
+    exponent switch off still demands flags 256 and a correct key tag of EVERY key of EVERY bundle,
+    and that an identifier denotes one key -/
+theorem exponent_flag_keeps_flags_and_tags (req : Request) (pol : RequestPolicy)
+    (hf : pol.keysMatchZskPolicy = true)
+    (h : checkKeysMatchZskPolicy req (expOff pol) = .ok ()) :
+    (∀ k ∈ allKeys req, C06.FlagsTagClause k) ∧ C06.IdentifierConsistent req := by
+  have h' := (C06.keysMatch_iff req (expOff pol) hf).mp h
+  refine ⟨fun k hk => ?_, h'.2⟩
+  have hk' := h'.1 k hk
+  rw [C06L.checkNewKey_eq, seq_ok_iff] at hk'
+  exact (C06.keyFlagsTag_iff k).mp hk'.2
+
+/-- consequently: with the exponent switch off, `validate_request` accepts exactly when every other
+    check accepts under the original policy and KSR-BUNDLE-KEYS accepts with the exponent waived -/
+theorem exponent_flag_off_validateRequest (ctx : Ctx) (pol : RequestPolicy) :
+    validateRequest ctx.verify ctx.now ctx.req (expOff pol) = .ok () ↔
+      (∀ k ∈ requestChecks, k ≠ .keysMatchZsk → runCheck ctx pol k = .ok ()) ∧
+      checkKeysMatchZskPolicy ctx.req (expOff pol) = .ok () := by
+  rw [validateRequest_iff_checks]
+  constructor
+  · intro h
+    refine ⟨fun k hk hne => ?_, ?_⟩
+    · rw [← exponent_flag_other_checks ctx pol k hne]; exact h k hk
+    · exact h .keysMatchZsk (by simp [requestChecks])
+  · rintro ⟨h1, h2⟩ k hk
+    by_cases hne : k = .keysMatchZsk
+    · subst hne; exact h2
+    · rw [exponent_flag_other_checks ctx pol k hne]; exact h1 k hk hne
+
+/-- a request declaring exponent 65537 for a key whose exponent is 3 (C06's toy key) -/
+def exMismatchReq : Request :=
+  { C06.exReq with
+    zskPolicy := { algorithms := [{ kind := .rsa, bits := 64, algorithm := 8, exponent := some 65537 }] },
+    bundles := [C06.exBundle 0 [C06.exKey "zsk1"]] }
+
+/-- refused with the switch on, accepted with it off … -/
+example : checkNewKey exMismatchReq C06.exPol (C06.exKey "zsk1") = violation .bundleKeys := by decide +kernel
+example : checkNewKey exMismatchReq (expOff C06.exPol) (C06.exKey "zsk1") = .ok () := by decide +kernel
+/-- … and the same key with a wrong key tag, or with non-ZSK flags, is still refused with it off -/
+example : checkNewKey exMismatchReq (expOff C06.exPol) { C06.exKey "zsk1" with keyTag := 38685 }
+    = violation .bundleKeys := by decide +kernel
+example : checkNewKey exMismatchReq (expOff C06.exPol) { C06.exKey "zsk1" with flags := 257 }
+    = violation .bundleKeys := by decide +kernel
 
 /-! ## 5. Exit status -/
 
